@@ -15,12 +15,29 @@ Reads PREFIX.req and PREFIX.cases.jsonl.  For every `expr` request it compares
 
 Numbers are compared as exact rationals.  Where a double computation had to round (the exact value is not
 a double, or differs from the double result by less than 1e-12 relative) the case is counted as `rounded`
-and not as a disagreement; everything else that differs is reported.  Outcomes the model predicts for the
-real code beyond errors are compared as well: `hang` (endless loop), `crash` (signal), `int-trunc`
-(the compiled code performs a truncating integer division).
+and not as a disagreement; everything else that differs is reported.
+
+Since /repo ad91e0f + 461b1b3 the real code neither hangs nor dies nor emits integer divisions, and the model
+(`Sympler/Expr.lean`) no longer has such outcomes.  Accordingly
+  * a `hang` / `crash` line of the harness is ALWAYS a disagreement (`unpredicted-hang` / `unpredicted-crash`);
+  * a model line `parse err:hang|crash`, `type err:crash` or a `compiled` component `err:int-trunc|int-div0` is
+    ALWAYS a disagreement (`model-predicts-old-behaviour`): the emitter theorems prove they cannot occur;
+  * the model's `parse err:unbalanced` ("Unbalanced brackets in expression ...") matches the harness's
+    `parse err:unbalanced`, and also `parse err:other` printed by a harness binary built before errKind() knew
+    that message (h_parser.cpp: add `if (msg.find("Unbalanced brackets in expression") != npos) return
+    "unbalanced";` — the unknown-symbol message mentions "Unbalanced brackets" too);
+  * compiled vs interpreter: an exact value below the subnormal range (a^5000 with |a| < 1: pow() gives 0, the
+    unrolled product stays at the smallest subnormal) counts as rounding (`compiled:underflow-differs`);
+  * cases without a generator reference (category `malformed`) have no `scale`; for them the magnitude of the
+    emitted C text (every variable replaced by its absolute value, every `-` by `+`; only texts made of loads,
+    literals, `+ - *` and brackets) is used as `scale`, so that cancellation in det(..) / {A}:{B}°{M} is
+    recognised as rounding exactly as it is for the generated cases;
+  * Python's limit on the length of integer literals is lifted (exact powers have thousands of digits).
+(The last three are independent of the two commits.)
 Exit status 0 iff there is no unexplained disagreement.
 """
 import sys, json, subprocess, os
+if hasattr(sys, 'set_int_max_str_digits'): sys.set_int_max_str_digits(0)   # exact powers have thousands of digits
 from fractions import Fraction as F
 from concurrent.futures import ThreadPoolExecutor
 
@@ -101,12 +118,50 @@ def cmp_vals(exact, dbl, strict=False, scale=None):
         return 'differ'
     return res
 
+import re
+LOAD = re.compile(r'\*\(\(double\*\) \(\(char\*\) particle_tag \+ (\d+)\)\)')
+LIT = re.compile(r'\d+\.?\d*(?:[eE]\d+)?|\.\d+(?:[eE]\d+)?')
+
+def magnitude(ctext, mem):
+    """upper bound of the intermediate magnitudes of an emitted C text made of loads, literals, + - * and
+    brackets: variables -> absolute values, `-` -> `+`; None for any other text"""
+    t = LOAD.sub(lambda m: '@%d@' % (int(m.group(1)) // 8), ctext)
+    if re.search(r'[A-Za-z_?:/>,]', t): return None
+
+    out, i = [], 0
+    while i < len(t):
+        c = t[i]
+        if c == '@':
+            j = t.index('@', i + 1); out.append('V[%s]' % t[i + 1:j]); i = j + 1
+        elif c.isdigit() or c == '.':
+            m = LIT.match(t, i)
+            if not m: return None
+            out.append('F("%s")' % m.group(0)); i = m.end()
+        elif c == '-': out.append('+'); i += 1
+        elif c in '+*() ': out.append(c); i += 1
+        else: return None
+    try:
+        return eval(''.join(out), {'__builtins__': {}}, {'V': [abs(x) for x in mem], 'F': F})
+    except Exception:
+        return None
+
+def memories(req):
+    """the tag (list of rationals) as it is when each `expr` request is processed"""
+    out, mem = [], []
+    for l in req:
+        if l == 'reset': mem = []
+        elif l.startswith('var '):
+            mem = mem + [F(x) for x in l.split()[3:]]
+        elif l.startswith('expr'): out.append(mem)
+    return out
+
 def main():
     o = opts()
     pre = o['prefix']
     req = open(pre + '.req').read().splitlines()
     cases = [json.loads(l) for l in open(pre + '.cases.jsonl')]
     blocks = blocks_of_requests(req)
+    mems = memories(req)
     # model: one run
     m = subprocess.run([o['--symdrv']], input='model expr\n' + '\n'.join(req) + '\n', capture_output=True, text=True)
     if m.returncode != 0:
@@ -131,7 +186,7 @@ def main():
         if len(findings[kind]) < 25:
             d = {'id': c['id'], 'text': c['text']}; d.update(kw); findings[kind].append(d)
         cnt('finding:' + kind)
-    for c, mm, hh in zip(cases, M, H):
+    for c, mm, hh, mem in zip(cases, M, H, mems):
         cid = c['id']
         def fail(what, **kw):
             d = {'id': cid, 'text': c['text'], 'what': what, 'model': mm, 'real': {k: (v[:300] if isinstance(v, str) else v) for k, v in hh.items()}}
@@ -140,14 +195,12 @@ def main():
             fail('protocol'); continue
         # ---------------- parse
         mp, hp = mm.get('parse'), hh.get('parse')
-        if mp == 'err:hang':
-            if 'hang' in hh and hp is None: cnt('parse:hang'); finding('hang', c)
-            else: fail('parse-hang')
-            continue
-        if mp == 'err:crash':
-            if 'crash' in hh and hp is None: cnt('parse:crash'); finding('crash-in-parse', c, signal=hh['crash'])
-            else: fail('parse-crash')
-            continue
+        if mp in ('err:hang', 'err:crash'):
+            fail('model-predicts-old-behaviour'); continue
+        if 'crash' in hh or 'hang' in hh:
+            fail('unpredicted-' + ('crash' if 'crash' in hh else 'hang')); continue
+        if mp == 'err:unbalanced' and hp == 'err:other':
+            hp = 'err:unbalanced'      # harness binary older than the "Unbalanced brackets" error kind
         if mp == 'err:exotic-number':
             cnt('abstain:exotic-number'); continue
         if mp != hp:
@@ -163,32 +216,24 @@ def main():
         mt, ht = mm.get('type'), hh.get('type')
         skipC = False
         if mt == 'err:crash':
-            if 'crash' in hh and ht is None: cnt('toC:crash'); finding('crash-in-toC', c, signal=hh['crash'])
-            else: fail('toC-crash')
-            continue
+            fail('model-predicts-old-behaviour'); continue
         if mt in ('err:opaque', 'err:range'):
             cnt('abstain:toC-' + mt[4:]); skipC = True
         elif mt != ht: fail('type'); continue
         elif mm.get('toC') != hh.get('toC'): fail('toC'); continue
         else: cnt('toC:' + ('err' if mt == 'err' else 'same'))
         mcomp = (mm.get('compiled') or '').split()
-        if 'crash' in hh and hh['crash'] in ('4', '8') and hh.get('compiled') is None and ht not in (None, 'err'):
-            if 'err:int-div0' in mcomp:
-                cnt('compiled:int-div0-crash'); finding('int-division-by-zero-crash', c, signal=hh['crash'], interpreter=hh.get('value'))
-                continue
-            ctext = hh.get('toC') or ''
-            if any(x in mcomp for x in ('err:div0', 'err:opaque', 'err:random', 'err:range')) and \
-               ('/(0)' in ctext or '? 1 : 0)/(' in ctext or '/(1)' in ctext):
-                # the model evaluator stops at the first division by zero / oracle call and cannot see a later
-                # int/int division by zero, which is evident in the emitted text
-                cnt('compiled:crash-after-div0'); finding('crash-after-division-by-zero(model stops earlier)', c, signal=hh['crash'], interpreter=hh.get('value'))
-                continue
+        if 'err:int-trunc' in mcomp or 'err:int-div0' in mcomp:
+            fail('model-predicts-old-behaviour'); continue
         if 'crash' in hh or 'hang' in hh:
             fail('unpredicted-' + ('crash' if 'crash' in hh else 'hang')); continue
         # ---------------- interpreter value
         ref = c.get('ref')
         strict = bool(ref and ref.get('exact'))
         scale = F(ref['scale']) if ref and 'scale' in ref else None
+        if ref is None and hh.get('toC'):
+            mags = [magnitude(t, mem) for t in hh['toC'].split(' | ')]
+            if all(x is not None for x in mags): scale = max(mags)
         mv, hv = mm.get('value'), hh.get('value')
         hvals = None if hv in (None, 'err') else nums(hv)
         mvals = None
@@ -217,12 +262,13 @@ def main():
                 if hvals is not None and not random_:
                     if hcv == hvals or (all(a == b or (a == 'nan' and b == 'nan') for a, b in zip(hcv, hvals)) and len(hcv) == len(hvals)):
                         cnt('compiled:bit-identical')
-                    elif 'err:int-trunc' in mcomp:
-                        finding('int-division', c, interpreter=hv, compiled=hc); cnt('compiled:int-trunc-predicted')
                     elif strict:
                         fail('compiled-vs-interpreter')
                     elif all(isinstance(a, F) and isinstance(b, F) and close(a, b) for a, b in zip(hcv, hvals)):
                         cnt('compiled:rounded')
+                    elif all(isinstance(a, F) and isinstance(b, F) and abs(a) < F(1, 2 ** 1000) and abs(b) < F(1, 2 ** 1000)
+                             for a, b in zip(hcv, hvals)):
+                        cnt('compiled:underflow-differs'); finding('underflow-differs', c, interpreter=hv, compiled=hc)
                     elif mv in ('err:div0',) or any(not isinstance(a, F) for a in hcv + hvals):
                         cnt('compiled:nonfinite-differs'); finding('nonfinite-differs', c, interpreter=hv, compiled=hc)
                     else:
@@ -234,9 +280,6 @@ def main():
                         r = cmp_vals([a for a, _ in pairs], [b for _, b in pairs], strict, scale)
                         if r == 'differ': fail('model-evalC')
                         else: cnt('evalC:' + r)
-                    if hvals is not None and not random_:
-                        for a, b, d in zip(mcomp, hcv, hvals):
-                            if a == 'err:int-trunc' and b == d: fail('int-trunc-not-observed')
         # ---------------- documented meaning (generator's own tree)
         ref = c.get('ref')
         if ref is not None:
